@@ -33,13 +33,13 @@ def bounds(tier):
     q = tier == 'quick'
     return {'string_length': '0..%d' % (1 if q else 2), 'alphabet': 'all Unicode except NUL, CR, LF',
             'edges': ['compile (object_file with per-target and global options)',
-                      'link (executable with link option)', 'build_step (list-form command)']}
+                      'link (executable with link option)', 'build_step (list-form command)', 'link with a project static library and a global link option']}
 
 
 def obligations(tier, kf):
     q = tier == 'quick'
     obs = []
-    for fn in ('c_compile', 'l_link', 'b_build_step'):
+    for fn in ('c_compile', 'l_link', 'b_build_step', 'g_link_lib_global'):
         for n in range(0, (1 if q else 2) + 1):
             obs.append(Ob(fn, {'N': n}, 600 if n < 2 else 3000, desc='%s |s|==%d' % (fn, n)))
         obs.append(Ob(fn, {'N': 1}, 200).twin())
@@ -47,4 +47,5 @@ def obligations(tier, kf):
     obs.append(Ob('c_compile', {'N': 1}, 600).mutant('ninja_no_dollar'))
     obs.append(Ob('l_link', {'N': 1}, 600).mutant('make_no_dollar'))
     obs.append(Ob('b_build_step', {'N': 1}, 600).mutant('posix_quote_safe'))
+    obs.append(Ob('g_link_lib_global', {'N': 1}, 600).mutant('ldlibs_uses_global_ldflags'))
     return obs
